@@ -552,7 +552,7 @@ def c09(prop, tier):
 
 def c19(prop, tier):
     return run_search_family(prop, tier, prop, subcmd="fastpaths", with_at=True, budget_scale=0.6 if tier == "quick" else 0.7,
-                             families=["REV", "ANC", "CC", "DIG", "LIT", "G2a", "G2m", "U8", "G2u"],
+                             families=["REV", "ANC", "CC", "DIG", "LIT", "G2a", "G2m", "U8", "G2u", "TRI", "G1", "BIG"],
                              rule="TLC enumerates the families designed around the strategy selector (REV, ANC, CC, DIG, LIT) and generic shards, "
                                   "x haystacks x every start offset; patterns whose selected strategy is a special-purpose searcher are checked end to end "
                                   "through Engine.IsMatch/FindIndicesAt/FindAt/FindSubmatchAt, and every public searcher whose own applicability predicate "
@@ -577,7 +577,7 @@ def c15(prop, tier):
         p = subprocess.run([vh, "nfaexport", "-in", gen_out, "-out", nfas], capture_output=True, text=True, timeout=600)
         if p.returncode != 0:
             raise Machinery("nfaexport: " + p.stderr[-500:])
-        nsh = 6 if q else 1
+        nsh = 3 if q else 1
         shard = vlib.seed() % nsh
         chk_out = os.path.join(work, "check.out")
         scratch = tempfile.mkdtemp(prefix="vtlc_")
